@@ -127,6 +127,51 @@ SECOND WAVE (same rules).  Additional outputs:
         length(v) = sqrt(length_squared v) and normalize_or_zero(v) = if length v == 0 then ZERO else v / length v,
         where sqrt is NOT defined by the table: a function using them gets an extra first parameter
         sqrt' : Q -> Q (the tie instantiates it with the model's qsqrt).
+
+THIRD WAVE.  Additional outputs:
+        <out>/BevyTbl.v    fixed text: the trusted table of Bevy / std meanings (below)
+        <out>/ReaderSrc.v  src/input.rs: enum Input, enum GamepadDevice (declaration order, derived PartialEq), the
+                           bitflags! block of ModKeys; src/input/input_reader.rs: struct ConsumedInput, struct
+                           InputReader (feature-gated fields dropped), struct GamepadInput<T> (instantiated for
+                           GamepadButton and GamepadAxis, with the derived PartialEq), ConsumedInput::reset,
+                           InputReader::{mod_keys_pressed, value, consume}
+        <out>/ModifSrc.v   now also `apply` of negate.rs and swizzle_axis.rs
+     NOT translated: InputReader::update_state (cfg-gated statements), raw_value (mem::take), set_gamepad;
+     ModKeys::iter_keys (a table entry instead); delta_lerp.rs, exponential_curve.rs; ActionData::trigger_events.
+  Ties: coq/Proofs/SrcTie3P.v.
+  Additions to the subset
+     - closures `|x| e` / `|&x| e` with one parameter, ONLY as the argument of a table method (any, find_map,
+       filter, is_ok_and, is_some_and, and_then); no assignments / `return` inside
+     - `for x in ITER { if C { return E; } }` at function level = `match find (fun x => C) ITER with Some x => E | None => rest`
+     - or-patterns `P | Q => e` in match arms (the arm is duplicated); `&p` patterns (Copy data)
+     - lifetimes in generics (ignored); generic structs `struct S<T>` instantiated per type argument
+       (record S_<Arg>_src); derive(PartialEq) on a generated record (all fields equal) and on an enum with
+       integer payloads (same variant, equal payloads) as <T>_eqb_src
+     - `*self.field` (copy out of a wrapper), `&x` arguments of table methods, `x.into()` on an
+       `impl Into<T>` parameter without a type context (identity)
+     - DIRECT SELF-RECURSION (negate, swizzle_axis: `self.apply(.., value.into())` on the converted Bool input):
+       the function is emitted as the OPEN-RECURSION FUNCTIONAL  <f>_open_src (rec' : <type of f>) ..  in which
+       the recursive call is rec'; the Rust function is a fixed point f = <f>_open_src f.  (Not inlined: the
+       tie proves that the two-level unrolling does not depend on rec'.)  A tail call `self.m(..)` of a
+       `&mut self` method with a result yields the callee's (self, result) pair.
+  Additions to the trusted tables
+    11. Representation of Bevy data (as in Model/Reader.v): KeyCode, MouseButton, GamepadButton, GamepadAxis, Entity:
+        integers Z; ModKeys (bitflags over u8): a bit mask in Z with insert = Z.lor, empty() = 0; ButtonInput<T>: the
+        list of pressed T; HashSet<T>: a list, insert(x) = x :: s, clear() = [], contains(&x) = existsb (eqb x) s with
+        the eqb of T (Z.eqb, or the PartialEq derived in the source); AccumulatedMouseMotion / Scroll: the Vec2 `delta`;
+        Query<&Gamepad>: list pad; Gamepad: the model record pad; Res<..> / Local<..> / ResMut<..>: transparent;
+        Input -> model inductive input (Keyboard{key, mod_keys} -> IKey, MouseButton{..} -> IMouseButton,
+        MouseMotion{..} -> IMotion, MouseWheel{..} -> IWheel, GamepadButton(b) -> IPadButton, GamepadAxis(a) -> IPadAxis);
+        GamepadDevice -> device = option Z (Any -> None, Single(e) -> Some e).  The declarations are parsed and checked.
+    12. Bevy / std calls (BEVY_* tables, text of BevyTbl.v), each a literal operation on that representation:
+        ButtonInput::pressed(k) = set_mem k s;  any_pressed([a, b]) = existsb (fun k => set_mem k s) [a; b];
+        Gamepad::pressed(b) = set_mem b (pad_buttons p);  Gamepad::get(a) = get_unclamped(a) = lookup of a in pad_axes p
+        (clamping not modelled);  Query::iter() = the list;  Query::get(e) = find the pad with pad_id = e (Result as
+        Option: is_ok_and = is_some_and, ok() = identity);  Iterator::any = existsb, find_map = first Some;
+        Option::filter / and_then / unwrap_or_default (= 0.0 for f32);  ModKeys::is_empty(m) = (m =? 0),
+        intersects(a, b) = (a land b <>? 0);  ModKeys::iter_keys(m) = for each set bit i of 0..3 in order the pair
+        [100 + 2 i; 101 + 2 i] (the model's numbering of {Alt,Control,Shift,Super}{Left,Right}; iter_keys itself
+        is NOT translated).
 """
 import sys, os, argparse
 from fractions import Fraction
@@ -419,7 +464,10 @@ class Parser(object):
         names = []
         while not self.at('>'):
             if self.peek().kind == 'life':
-                self.fail("lifetime parameter")
+                self.next()
+                if not self.eat(','):
+                    break
+                continue
             if self.at('const'):
                 self.fail("const generic parameter")
             names.append(self.ident())
@@ -497,7 +545,7 @@ class Parser(object):
                 args = []
                 while not (self.at('>') or self.at('>>') or self.at('>=')):
                     if self.peek().kind == 'life':
-                        args.append(self.next().text)
+                        self.next()
                     else:
                         a = self.type_()
                         if self.eat('='):          # associated type binding  Item = T
@@ -506,7 +554,7 @@ class Parser(object):
                     if not self.eat(','):
                         break
                 self.close_angle()
-                gen = '<' + ','.join(args) + '>'
+                gen = ('<' + ','.join(args) + '>') if args else ''
             if self.at('::') and self.peek(1).kind == 'id':
                 self.next()
                 last = self.ident()
@@ -533,8 +581,11 @@ class Parser(object):
             return Node('PBool', line, value=(t.text == 'true'))
         if t.kind in ('int', 'float', 'str', 'char'):
             self.fail("literal pattern")
-        if self.at('&') or self.at('&&'):
-            self.fail("reference pattern")
+        if self.at('&'):
+            self.next()
+            if self.at('mut'):
+                self.fail("`&mut` pattern")
+            return self.pattern()          # `&p` on Copy data: same as p
         if self.at('ref') or self.at('box'):
             self.fail("`%s` pattern" % t.text)
         if self.eat('('):
@@ -736,12 +787,28 @@ class Parser(object):
             if not (self.at(';') or self.at('}') or self.at(',')):
                 val = self.expr()
             return Node('Return', line, expr=val)
+        if t.kind == 'id' and t.text == 'move' and self.peek(1).kind == 'p' and self.peek(1).text in ('|', '||'):
+            self.fail("`move` closure")
         if t.kind == 'id' and t.text in ('loop', 'while', 'unsafe', 'async', 'move', 'break', 'continue',
                                          'let', 'for', 'const', 'static', 'fn', 'struct', 'enum', 'impl',
                                          'use', 'mod', 'trait', 'type', 'where', 'yield', 'await', 'dyn'):
             self.fail("`%s` in expression position" % t.text)
         if t.kind == 'p' and t.text in ('|', '||'):
-            self.fail("closure")
+            self.next()
+            params = []
+            if t.text == '|':
+                while not self.at('|'):
+                    p = self.pattern()
+                    if self.eat(':'):
+                        self.type_()
+                    params.append(p)
+                    if not self.eat(','):
+                        break
+                self.expect('|')
+            if self.at('->'):
+                self.fail("closure with a return type")
+            body = self.expr()
+            return Node('Closure', line, params=params, body=body)
         if t.kind == 'p' and t.text in ('..', '..=', '...'):
             self.fail("range expression")
         if t.kind == 'p' and t.text == '<':
@@ -811,7 +878,10 @@ class Parser(object):
             self.eat('|')
             pat = self.pattern()
             if self.at('|'):
-                self.fail("or-pattern")
+                alts = [pat]
+                while self.eat('|'):
+                    alts.append(self.pattern())
+                pat = Node('POr', al, alts=alts)
             if self.at('if'):
                 self.fail("match guard")
             self.expect('=>')
@@ -1012,12 +1082,14 @@ class Parser(object):
         self.expect('{')
         out = []
         while not self.at('}'):
-            self.attrs()
+            at = self.attrs()
             self.visibility()
             line = self.peek().line
             name = self.ident()
             self.expect(':')
-            out.append((name, self.type_(), line))
+            ty = self.type_()
+            if not any(a and a[0] == 'cfg' for a in at):      # feature-gated fields are not modelled
+                out.append((name, ty, line))
             if not self.eat(','):
                 break
         self.expect('}')
@@ -1357,6 +1429,101 @@ Definition vec3_normalize_or_zero (sqrt : Q -> Q) (v : Vec3) : Vec3 :=
 End Glam2.
 """
 
+# --- third wave: input reader (Bevy table) ---
+for _t in ('KeyCode', 'MouseButton', 'GamepadButton', 'GamepadAxis', 'Entity', 'ModKeys'):
+    COQ_TYPE[_t] = 'Z'                   # keys / buttons / axes / entities / ModKeys bit masks: integers
+COQ_TYPE.update({'ButtonInput<KeyCode>': 'list Z', 'ButtonInput<MouseButton>': 'list Z',
+                 'AccumulatedMouseMotion': 'Glam.Vec2', 'AccumulatedMouseScroll': 'Glam.Vec2',
+                 'Query<&Gamepad>': 'list pad', 'Gamepad': 'pad', 'GamepadDevice': 'device', 'Input': 'input',
+                 '[KeyCode;2]': 'list Z'})
+ENUM_MAP['GamepadDevice'] = {'Any': ('None', 'unit', []), 'Single': ('Some', 'tuple', ['Entity'])}
+ENUM_MAP['Input'] = {
+    'Keyboard': ('IKey', 'struct', [('key', 'KeyCode'), ('mod_keys', 'ModKeys')]),
+    'MouseButton': ('IMouseButton', 'struct', [('button', 'MouseButton'), ('mod_keys', 'ModKeys')]),
+    'MouseMotion': ('IMotion', 'struct', [('mod_keys', 'ModKeys')]),
+    'MouseWheel': ('IWheel', 'struct', [('mod_keys', 'ModKeys')]),
+    'GamepadButton': ('IPadButton', 'tuple', ['GamepadButton']),
+    'GamepadAxis': ('IPadAxis', 'tuple', ['GamepadAxis'])}
+WRAPPERS = ('Res<', 'Local<', 'ResMut<')     # Bevy system-parameter wrappers: transparent
+
+
+def norm_type(ty):
+    for w_ in WRAPPERS:
+        if ty.startswith(w_) and ty.endswith('>'):
+            return norm_type(ty[len(w_):-1])
+    return ty
+
+
+# fields of Bevy resource structs:  (type, field) -> (Gallina template, result type)
+BEVY_FIELDS = {('AccumulatedMouseMotion', 'delta'): ('{r}', 'Vec2'), ('AccumulatedMouseScroll', 'delta'): ('{r}', 'Vec2')}
+# methods: (receiver type, method) -> (parameter types, result type, template over {r} {a0})
+BEVY_METHODS = {
+    ('ButtonInput<KeyCode>', 'pressed'): (['KeyCode'], 'bool', 'Bevy.set_mem {a0} {r}'),
+    ('ButtonInput<MouseButton>', 'pressed'): (['MouseButton'], 'bool', 'Bevy.set_mem {a0} {r}'),
+    ('ButtonInput<KeyCode>', 'any_pressed'): (['[KeyCode;2]'], 'bool', 'Bevy.any_pressed {r} {a0}'),
+    ('Gamepad', 'pressed'): (['GamepadButton'], 'bool', 'Bevy.pad_pressed {r} {a0}'),
+    ('Gamepad', 'get'): (['GamepadAxis'], 'Option<f32>', 'Bevy.pad_axis {r} {a0}'),
+    ('Gamepad', 'get_unclamped'): (['GamepadAxis'], 'Option<f32>', 'Bevy.pad_axis {r} {a0}'),
+    ('Query<&Gamepad>', 'iter'): ([], 'Iter<Gamepad>', '{r}'),
+    ('Query<&Gamepad>', 'get'): (['Entity'], 'Option<Gamepad>', 'Bevy.query_get {r} {a0}'),   # Result as Option
+    ('ModKeys', 'is_empty'): ([], 'bool', 'Bevy.mod_is_empty {r}'),
+    ('ModKeys', 'intersects'): (['ModKeys'], 'bool', 'Bevy.mod_intersects {r} {a0}'),
+    ('ModKeys', 'iter_keys'): ([], 'Iter<[KeyCode;2]>', 'Bevy.mod_iter_keys {r}'),
+    ('Option<f32>', 'unwrap_or_default'): ([], 'f32', 'Bevy.unwrap_or_zero {r}'),
+}
+# methods taking a closure: (receiver type constructor, method) -> (result kind, template over {r} {f})
+#   result kind 'bool' | 'same' (receiver type) | 'closure' (the closure's result type)
+BEVY_CLOSURE_METHODS = {
+    ('Iter', 'any'): ('bool', 'bool', 'existsb {f} {r}'),
+    ('Iter', 'find_map'): ('option', 'closure', 'Bevy.find_map {f} {r}'),
+    ('Option', 'filter'): ('bool', 'same', 'Bevy.opt_filter {f} {r}'),
+    ('Option', 'is_ok_and'): ('bool', 'bool', 'Bevy.opt_is_some_and {r} {f}'),
+    ('Option', 'is_some_and'): ('bool', 'bool', 'Bevy.opt_is_some_and {r} {f}'),
+    ('Option', 'and_then'): ('option', 'closure', 'Bevy.opt_and_then {r} {f}'),
+}
+BEVY_IDENTITY_METHODS = {('Option', 'ok')}            # Result::ok on the Option that stands for a Result
+# mutating statement methods: new value of the place, over {cur} {a0}
+BEVY_MUT_METHODS = {('HashSet', 'insert'): ('elem', '{a0} :: {cur}'), ('HashSet', 'clear'): (None, '[]'),
+                    ('ModKeys', 'insert'): ('ModKeys', 'Z.lor {cur} {a0}')}
+Z_FLAG_TYPES = ['ModKeys']                            # bitflags represented by Z
+BEVY_V = r"""(* GENERATED by bin/rs2v.py (fixed text): the TRUSTED table of Bevy / std meanings used by input_reader.rs,
+   as operations on the model's representation (Model/Reader.v: pressed keys and buttons are lists of integers,
+   a gamepad is a `pad` record, ModKeys is a bit mask in Z, KeyCode::{Alt,Control,Shift,Super}{Left,Right} are
+   the integers 100 .. 107). *)
+From BEI Require Import Model.Num Model.Value Model.State Model.Tracker Model.Cond Model.Modif Model.Reader.
+Local Open Scope Z_scope.
+
+Module Bevy.
+(* ButtonInput::pressed(k), HashSet<integer>::contains *)
+Definition set_mem (x : Z) (s : list Z) : bool := existsb (Z.eqb x) s.
+(* ButtonInput::any_pressed([k1, k2]) *)
+Definition any_pressed (s : list Z) (ks : list Z) : bool := existsb (fun k => set_mem k s) ks.
+(* Gamepad::pressed(button), Gamepad::get(axis) / get_unclamped(axis) (clamping is not modelled) *)
+Definition pad_pressed (p : pad) (b : Z) : bool := set_mem b (pad_buttons p).
+Definition pad_axis (p : pad) (a : Z) : option Q :=
+  match find (fun kv => Z.eqb (fst kv) a) (pad_axes p) with Some kv => Some (snd kv) | None => None end.
+(* Query<&Gamepad>::get(entity): the gamepad with that id (Err = None); iter() = the list itself *)
+Definition query_get (ps : list pad) (e : Z) : option pad := find (fun p => Z.eqb (pad_id p) e) ps.
+(* Iterator::find_map, Option::filter / is_some_and (Result::is_ok_and) / and_then / unwrap_or_default *)
+Fixpoint find_map {A B : Type} (f : A -> option B) (l : list A) : option B :=
+  match l with [] => None | x :: r => match f x with Some y => Some y | None => find_map f r end end.
+Definition opt_filter {A : Type} (p : A -> bool) (o : option A) : option A :=
+  match o with Some x => if p x then Some x else None | None => None end.
+Definition opt_is_some_and {A : Type} (o : option A) (p : A -> bool) : bool :=
+  match o with Some x => p x | None => false end.
+Definition opt_and_then {A B : Type} (o : option A) (f : A -> option B) : option B :=
+  match o with Some x => f x | None => None end.
+Definition unwrap_or_zero (o : option Q) : Q := match o with Some x => x | None => 0%Q end.
+(* ModKeys (bitflags over u8, as Z): is_empty, intersects; insert = Z.lor; empty() = 0 *)
+Definition mod_is_empty (m : Z) : bool := Z.eqb m 0.
+Definition mod_intersects (a b : Z) : bool := negb (Z.eqb (Z.land a b) 0).
+(* ModKeys::iter_keys (src/input.rs, NOT translated): for each set flag, in bit order ALT CONTROL SHIFT SUPER,
+   the pair [left key, right key] *)
+Definition mod_iter_keys (m : Z) : list (list Z) :=
+  map (fun i => [100 + 2 * i; 101 + 2 * i]) (filter (Z.testbit m) [0; 1; 2; 3]).
+End Bevy.
+"""
+
 # =====================================================================================
 # 4. Translator: typed AST -> Gallina text
 # =====================================================================================
@@ -1520,21 +1687,75 @@ class World(object):
     def gen_struct(self, sf, name, out):
         """struct without a model record: a Gallina Record is GENERATED from its declaration"""
         it = sf.item('struct', name)
-        fields = [x for x in sf.parser(it.pos).struct_body() if not ignored_field(x[1])]
+        fields = [(f, norm_type(t), l) for (f, t, l) in sf.parser(it.pos).struct_body() if not ignored_field(t)]
         for (f, ty, line) in fields:
-            if ty not in COQ_TYPE and ty not in self.smeta:
-                raise Unsupported(sf.rel, line, "field `%s.%s` of unsupported type `%s`" % (name, f, ty))
+            self.ensure_type(ty, sf, line)
         self.structs[name] = [(f, ty) for (f, ty, _) in fields]
         self.smeta[name] = dict(coq=name + '_src', proj=dict((f, '%s_%s' % (name, f)) for (f, _, _) in fields),
                                 setter=dict((f, 'set_%s_%s_src' % (name, f)) for (f, _, _) in fields),
-                                out=out, generated=True, generics=list(getattr(it, 'generics', [])), line=it.line)
+                                out=out, generated=True, generics=list(getattr(it, 'generics', [])), line=it.line,
+                                derives=derives(it.attrs), tag=name)
 
     def coq_type_of(self, ty):
         if ty in COQ_TYPE:
             return COQ_TYPE[ty]
         if ty in self.smeta:
             return self.smeta[ty]['coq']
+        for (pre, fmt) in (('HashSet<', 'list %s'), ('Option<', 'option %s'), ('Iter<', 'list %s')):
+            if ty.startswith(pre) and ty.endswith('>'):
+                inner = self.coq_type_of(ty[len(pre):-1])
+                if inner is None:
+                    return None
+                return fmt % (inner if atomic(inner) else '(' + inner + ')')
         return None
+
+    def ensure_type(self, ty, sf, line):
+        """make sure `ty` has a Gallina representation (instantiating generic structs on demand)"""
+        if self.coq_type_of(ty) is not None:
+            return
+        for pre in ('HashSet<', 'Option<', 'Iter<'):
+            if ty.startswith(pre) and ty.endswith('>'):
+                self.ensure_type(ty[len(pre):-1], sf, line)
+                return
+        base = ty.split('<')[0]
+        if base in getattr(self, 'generic_structs', {}) and ty.endswith('>'):
+            self.instantiate(base, ty[len(base) + 1:-1], sf, line)
+            return
+        raise Unsupported(sf.rel, line, "unsupported type `%s`" % ty)
+
+    def instantiate(self, base, arg, sf0, line0):
+        it, sf, out = self.generic_structs[base]
+        ty = '%s<%s>' % (base, arg)
+        if ty in self.smeta:
+            return ty
+        if len(it.generics) != 1:
+            raise Unsupported(sf.rel, it.line, "generic struct `%s` with %d parameters" % (base, len(it.generics)))
+        fields = [(f, (arg if t == it.generics[0] else norm_type(t)), l) for (f, t, l) in sf.parser(it.pos).struct_body()
+                  if not ignored_field(t)]
+        tag = base + '_' + ''.join(c for c in arg if c.isalnum())
+        for (f, t, l) in fields:
+            self.ensure_type(t, sf, l)
+        self.structs[ty] = [(f, t) for (f, t, _) in fields]
+        self.smeta[ty] = dict(coq=tag + '_src', proj=dict((f, '%s_%s' % (tag, f)) for (f, _, _) in fields),
+                              setter=dict((f, 'set_%s_%s_src' % (tag, f)) for (f, _, _) in fields),
+                              out=out, generated=True, generics=[], line=it.line, derives=derives(it.attrs), tag=tag)
+        emit_setters(self, out, ty, sf)
+        return ty
+
+    def eqb_of(self, ty, sf, line):
+        """Gallina equality test for values of a type that derives PartialEq"""
+        c = self.coq_type_of(ty)
+        if c == 'Z':
+            return 'Z.eqb'
+        if c == 'bool':
+            return 'Bool.eqb'
+        if c == 'Q':
+            return 'qeqb'
+        if ty in self.enums and 'PartialEq' in self.enums[ty][1] and ty in getattr(self, 'enum_out', {}):
+            return '%s_eqb_src' % ty
+        if ty in self.smeta and self.smeta[ty]['generated'] and 'PartialEq' in self.smeta[ty].get('derives', []):
+            return '%s_eqb_src' % self.smeta[ty]['tag']
+        raise Unsupported(sf.rel, line, "no equality (derive(PartialEq)) known for `%s`" % ty)
 
     def load_impls(self, sf, out, tyname):
         n = 0
@@ -1632,7 +1853,7 @@ class World(object):
         if key not in self.done:
             self.busy.add(key)
             nm = self.coq_name(key, sf, f.line)
-            FnTranslator(self, sf, out, key[0], f).emit(nm)
+            nm = FnTranslator(self, sf, out, key[0], f).emit(nm) or nm
             self.busy.discard(key)
             self.done[key] = nm
         if from_out is not out and out.name not in from_out.imports:
@@ -1652,6 +1873,9 @@ class World(object):
             self.names[nm] = k2
             if f.self_kind is not None or len(f.params) != 1 or strip_ref(f.params[0][1])[0] != src_ty:
                 raise Unsupported(sf.rel, f.line, "malformed `From::from`")
+            if getattr(self, 'late', False):
+                out = from_out
+                self.froms[key] = (f, sf, out)
             FnTranslator(self, sf, out, dst_ty, f).emit(nm)
             self.done[k2] = nm
         if from_out is not out and out.name not in from_out.imports:
@@ -1772,6 +1996,8 @@ def assigned_vars(n, acc):
 class FnTranslator(object):
     def __init__(self, world, sf, out, self_type, fn):
         self.w, self.sf, self.out, self.self_type, self.fn = world, sf, out, self_type, fn
+        self.key = (self_type, fn.name)
+        self.recursive = False
         self.ret = None
         self.opaque = None          # for loop-step functions: method -> (param coq name, type, args text)
 
@@ -1781,12 +2007,13 @@ class FnTranslator(object):
     def resolve_type(self, ty, line):
         if ty == 'Self':
             ty = self.self_type
-        return ty
+        return norm_type(ty) if ty else ty
 
     def coq_type(self, ty, line):
         t = self.w.coq_type_of(ty)
         if t is None:
-            self.fail(line, "unsupported type `%s`" % ty)
+            self.w.ensure_type(ty, self.sf, line)
+            t = self.w.coq_type_of(ty)
         if ty in self.w.smeta:
             self.use_out(self.w.smeta[ty]['out'])
         return t
@@ -1833,8 +2060,10 @@ class FnTranslator(object):
                 self.fail(pat.line, "parameter pattern")
             ty, rk = strip_ref(self.resolve_type(ty, pat.line))
             ty = self.resolve_type(ty, pat.line)
+            into_id = False
             if ty.startswith('impl Into<') and ty.endswith('>'):
                 ty = ty[len('impl Into<'):-1]          # modelled as the already converted value
+                into_id = True
             if ty == TIME_TYPE and rk == 'ref':
                 env[pat.name] = Var(ty, None, 'time')
                 binders.append(('time',))
@@ -1846,6 +2075,7 @@ class FnTranslator(object):
             if rk == 'refmut':
                 self.fail(pat.line, "`&mut` parameter `%s`" % pat.name)
             env[pat.name] = Var(ty, pat.name + "'", 'mut' if pat.mut else 'val')
+            env[pat.name].into_id = into_id
             binders.append("(%s' : %s)" % (pat.name, self.coq_type(ty, pat.line)))
         body = self.sf.parser(f.body_pos).block()
         ret = self.resolve_type(f.ret, f.line)
@@ -1875,8 +2105,18 @@ class FnTranslator(object):
                     final.append("(lookup' : %s)" % COQ_TYPE[LOOKUP_RESULT])
             else:
                 final.append(b)
-        self.out.defs.append("(* %s::%s, %s:%d *)\nDefinition %s %s : %s :=\n  %s.\n" % (
-            self.self_type, f.name, self.sf.rel, f.line, coq_name, ' '.join(final), rtext, ind(text)))
+        note = ''
+        if self.recursive:
+            if f.time_methods or f.uses_lookup or f.opaque_fns:
+                self.fail(f.line, "self-recursive function with opaque parameters")
+            tys = [b[b.index(':') + 2:-1] for b in final]
+            final = ["(rec' : %s)" % ' -> '.join([(t if atomic(t) else '(' + t + ')') for t in tys] + [rtext])] + final
+            coq_name = coq_name[:-4] + '_open_src'
+            note = ("   the function calls ITSELF: this is the open-recursion functional; the Rust function is a fixed point\n"
+                    "   f = %s f *)\n(* " % coq_name)
+        self.out.defs.append("(* %s%s::%s, %s:%d *)\nDefinition %s %s : %s :=\n  %s.\n" % (
+            note, self.self_type, f.name, self.sf.rel, f.line, coq_name, ' '.join(final), rtext, ind(text)))
+        return coq_name
 
     # ---------------- statements (continuation style)
     def vars_text(self, names, env):
@@ -1902,6 +2142,10 @@ class FnTranslator(object):
            leaves are paired with the current self"""
         if e.k in ('If', 'IfLet', 'Match', 'Block', 'Return') or not (ret_ok and self.pair):
             return self.expr(e, env, exp, ret_ok)
+        if (e.k == 'Method' and e.recv.k == 'Path' and e.recv.segs == ['self'] and (self.self_type, e.name) in self.w.fns):
+            cf = self.w.fns[(self.self_type, e.name)][0]
+            if cf.self_kind == 'refmut' and cf.ret != '()':
+                return self.user_call((self.self_type, e.name), env['self'].coq, e.args, env, e.line, mutating=True)
         t, ty = self.expr(e, env, exp)
         return "(%s, %s)" % (env['self'].coq, t), ty
 
@@ -1967,6 +2211,25 @@ class FnTranslator(object):
         if s.k == 'Assign':
             name, newval = self.assign(s, env)
             return prefix("let %s :=\n  %s in\n" % (env[name].coq, ind(newval)), go_rest())
+        if (s.k == 'For' and value_mode and want[2] and s.pat.k == 'PBind' and not s.body.stmts
+                and s.body.tail is not None and s.body.tail.k == 'If' and s.body.tail.els is None
+                and always_returns_block(s.body.tail.then) and not assigned_vars(s.body, [])):
+            # for x in ITER { if C { return E; } }  ==  first x with C returns E, otherwise go on
+            it, ity = self.expr(s.iter, env, None)
+            if not ity.startswith('Iter<'):
+                self.fail(s.line, "`for` over a value of type `%s`" % ity)
+            env2 = dict(env)
+            x = s.pat.name + "'"
+            env2[s.pat.name] = Var(ity[5:-1], x, 'val')
+            c, cty = self.expr(s.body.tail.cond, env2, 'bool')
+            if cty != 'bool':
+                self.fail(s.line, "condition of type `%s`" % cty)
+            t1, ty1 = self.seq(s.body.tail.then.stmts, s.body.tail.then.tail, env2, want)
+            t2, ty2 = go_rest()
+            if ty1 != ty2:
+                self.fail(s.line, "branches of types `%s` and `%s`" % (ty1, ty2))
+            return ("match find (fun %s => %s) %s with\n| Some %s =>\n    %s\n| None =>\n    %s\nend"
+                    % (x, c, par(it), x, ind(t1, 4), ind(t2, 4)), ty1)
         if s.k == 'For':
             name, newval = self.for_zip(s, env)
             return prefix("let %s :=\n  %s in\n" % (env[name].coq, ind(newval)), go_rest())
@@ -2104,6 +2367,24 @@ class FnTranslator(object):
         pl = self.place(e.recv, env, e.line)
         root, cur, ty, rb = pl[0], pl[1], pl[2], pl[3]
         key = (ty, e.name)
+        ctor = ty.split('<')[0]
+        if (ctor, e.name) in BEVY_MUT_METHODS:
+            aty, tmpl = BEVY_MUT_METHODS[(ctor, e.name)]
+            if env[root].kind not in ('mut', 'refmut'):
+                self.fail(e.line, "mutating call on immutable `%s`" % root)
+            args = {}
+            if aty is None:
+                if e.args:
+                    self.fail(e.line, "wrong number of arguments for `%s`" % e.name)
+            else:
+                aty = ty[len(ctor) + 1:-1] if aty == 'elem' else aty
+                if len(e.args) != 1:
+                    self.fail(e.line, "wrong number of arguments for `%s`" % e.name)
+                t, t_ty = self.expr(self.strip_ref(e.args[0]), env, aty)
+                if t_ty != aty:
+                    self.fail(e.line, "argument of type `%s`, expected `%s`" % (t_ty, aty))
+                args['a0'] = par(t)
+            return root, rb(tmpl.format(cur=par(cur), **args))
         if key not in self.w.fns:
             self.fail(e.line, "statement call of `%s` on `%s`" % (e.name, ty))
         f = self.w.fns[key][0]
@@ -2227,7 +2508,13 @@ class FnTranslator(object):
         if not e.arms:
             self.fail(e.line, "empty match")
         arms = []
+        expanded = []
         for a in e.arms:
+            if a.pat.k == 'POr':
+                expanded += [Node('Arm', a.line, pat=p, body=a.body) for p in a.pat.alts]
+            else:
+                expanded.append(a)
+        for a in expanded:
             env2 = dict(env)
             if len(scruts) > 1:
                 if a.pat.k == 'PWild':
@@ -2357,7 +2644,7 @@ class FnTranslator(object):
                     args.append(t)
                 return self.ctor(tname, name, args, e.line), tname
             if tname in self.w.flags and name in BITFLAGS_ASSOC and not e.args:
-                return BITFLAGS_ASSOC[name], tname
+                return (BITFLAGS_ASSOC[name] if tname not in Z_FLAG_TYPES else BITFLAGS_ASSOC[name].replace('%N', '%Z')), tname
             if (tname, name) in self.w.fns:
                 return self.user_call((tname, name), None, e.args, env, e.line)
             self.fail(e.line, "call of `%s`" % '::'.join(e.fn.segs))
@@ -2396,6 +2683,8 @@ class FnTranslator(object):
                     self.fail(e.line, "wrong number of arguments for `%s`" % e.name)
                 return ' '.join([fn, self.opq(on), par(rt)]), res
             if e.name == 'into' and not e.args:
+                if exp is None and r.k == 'Path' and len(r.segs) == 1 and getattr(env.get(r.segs[0]), 'into_id', False):
+                    return rt, rty
                 if exp is None:
                     raise NeedExpected(e.line)
                 if exp == rty:
@@ -2404,6 +2693,9 @@ class FnTranslator(object):
                     return "%s %s" % (GLAM_INTO[(rty, exp)], par(rt)), exp
                 fn = self.w.require_from(rty, exp, self.out, self.sf, e.line)
                 return "%s %s" % (fn, par(rt)), exp
+            bt = self.bevy_method(e, rt, rty, env, exp)
+            if bt is not None:
+                return bt
             self.fail(e.line, "method `%s` on `%s`" % (e.name, rty))
         if k == 'Field':
             rt, rty = self.expr(e.recv, env, None)
@@ -2415,12 +2707,17 @@ class FnTranslator(object):
             if (rty, e.name) in GLAM_FIELDS:
                 fn, res = GLAM_FIELDS[(rty, e.name)]
                 return "%s %s" % (fn, par(rt)), res
+            if (rty, e.name) in BEVY_FIELDS:
+                f_, res = BEVY_FIELDS[(rty, e.name)]
+                return f_.format(r=par(rt)), res
             self.fail(e.line, "field `%s` of `%s`" % (e.name, rty))
         if k == 'Unary':
             if e.op == '*':
                 x = e.expr
                 if x.k == 'Path' and len(x.segs) == 1 and x.segs[0] in env and env[x.segs[0]].kind == 'refmut':
                     return env[x.segs[0]].coq, env[x.segs[0]].ty
+                if x.k == 'Field':
+                    return self.expr(x, env, exp)      # `*self.field`: copy out of a wrapper / reference
                 self.fail(e.line, "dereference")
             t, ty = self.expr(e.expr, env, exp)
             if e.op == '!' and ty == 'bool':
@@ -2501,6 +2798,16 @@ class FnTranslator(object):
                         self.fail(e.line, "field `%s` of type `%s`, expected `%s`" % (f, ty, fty))
                     args.append(t)
                 return self.ctor(ename, vname, args, e.line), ename
+            if tname in getattr(self.w, 'generic_structs', {}):
+                it = self.w.generic_structs[tname][0]
+                decl0 = dict((f, t) for (f, t, _) in self.w.generic_structs[tname][1].parser(it.pos).struct_body())
+                arg = None
+                for (f, fe) in e.fields:
+                    if decl0.get(f) in it.generics:
+                        arg = self.expr(fe, env, None)[1]
+                if arg is None:
+                    self.fail(e.line, "cannot infer the type argument of `%s`" % tname)
+                tname = self.w.instantiate(tname, arg, self.sf, e.line)
             if tname not in self.w.smeta or tname not in self.w.structs:
                 self.fail(e.line, "struct literal of `%s`" % tname)
             decl = dict(self.w.structs[tname])
@@ -2526,10 +2833,64 @@ class FnTranslator(object):
                     self.fail(x.line, "tuple component of type `%s` (only tuples of f32 are supported)" % ty)
                 parts.append(t)
             return '(' + ', '.join(parts) + ')', '(' + ','.join(['f32'] * len(parts)) + ')'
-        names = {'Cast': "`as` cast", 'Ref': "borrow expression", 'Macro': "macro invocation",
+        names = {'Cast': "`as` cast", 'Ref': "borrow expression", 'Closure': "closure (outside the table methods)", 'Macro': "macro invocation",
                  'Tuple': "tuple expression", 'Array': "array literal", 'Index': "indexing",
                  'TupleIndex': "tuple field", 'Str': "string / char literal"}
         self.fail(e.line, names.get(k, "expression `%s`" % k))
+
+    def strip_ref(self, a):
+        while a.k in ('Paren', 'Ref'):
+            a = a.expr
+        return a
+
+    def closure(self, c, env, pty, exp):
+        """closure with one parameter of type pty -> (Gallina fun, result type)"""
+        if c.k != 'Closure' or len(c.params) != 1 or c.params[0].k not in ('PBind', 'PWild'):
+            self.fail(c.line, "expected a closure with one simple parameter")
+        env2 = dict(env)
+        x = '_'
+        if c.params[0].k == 'PBind':
+            x = c.params[0].name + "'"
+            env2[c.params[0].name] = Var(pty, x, 'val')
+        for (nm, ln) in assigned_vars(c.body, []):
+            self.fail(ln, "assignment inside a closure")
+        if contains_return(c.body):
+            self.fail(c.line, "`return` inside a closure")
+        t, ty = self.expr(c.body, env2, exp)
+        return "(fun %s => %s)" % (x, ind(t, 5)), ty
+
+    def bevy_method(self, e, rt, rty, env, exp):
+        if (rty, e.name) in BEVY_METHODS:
+            ptys, res, tmpl = BEVY_METHODS[(rty, e.name)]
+            if len(ptys) != len(e.args):
+                self.fail(e.line, "wrong number of arguments for `%s`" % e.name)
+            args = {}
+            for i, (a, pty) in enumerate(zip(e.args, ptys)):
+                t, ty = self.expr(self.strip_ref(a), env, pty)
+                if ty != pty:
+                    self.fail(a.line, "argument of type `%s`, expected `%s`" % (ty, pty))
+                args['a%d' % i] = par(t)
+            return tmpl.format(r=par(rt), **args), res
+        ctor = rty.split('<')[0]
+        inner = rty[len(ctor) + 1:-1] if rty.endswith('>') else None
+        if (ctor, e.name) in BEVY_IDENTITY_METHODS and not e.args:
+            return rt, rty
+        if ctor == 'HashSet' and e.name == 'contains' and len(e.args) == 1:
+            t, ty = self.expr(self.strip_ref(e.args[0]), env, inner)
+            if ty != inner:
+                self.fail(e.line, "argument of type `%s`, expected `%s`" % (ty, inner))
+            return "existsb (%s %s) %s" % (self.w.eqb_of(inner, self.sf, e.line), par(t), par(rt)), 'bool'
+        if (ctor, e.name) in BEVY_CLOSURE_METHODS and len(e.args) == 1 and inner is not None:
+            want, resk, tmpl = BEVY_CLOSURE_METHODS[(ctor, e.name)]
+            cexp = 'bool' if want == 'bool' else (exp if resk == 'closure' else None)
+            f, fty = self.closure(e.args[0], env, inner, cexp)
+            if want == 'bool' and fty != 'bool':
+                self.fail(e.line, "closure of type `%s`, expected bool" % fty)
+            if want == 'option' and not fty.startswith('Option<'):
+                self.fail(e.line, "closure of type `%s`, expected an Option" % fty)
+            res = {'bool': 'bool', 'same': rty, 'closure': fty}[resk]
+            return tmpl.format(r=par(rt), f=f), res
+        return None
 
     def user_call(self, key, recv_text, args, env, line, mutating=False):
         f, sf, out = self.w.fns[key]
@@ -2541,7 +2902,12 @@ class FnTranslator(object):
             self.fail(line, "call of the `&mut self` method `%s` inside an expression" % key[1])
         if len(args) != len(f.params):
             self.fail(line, "wrong number of arguments for `%s`" % key[1])
-        name = self.w.require_fn(key, self.out, self.sf, line)      # callee first: its opaque parameters
+        if key == self.key and key in self.w.busy:
+            self.recursive = True               # direct self-recursion: call the parameter of the open functional
+            name = "rec'"
+            f.time_methods, f.uses_lookup, f.opaque_fns = [], False, []
+        else:
+            name = self.w.require_fn(key, self.out, self.sf, line)  # callee first: its opaque parameters
         texts = [par(recv_text)] if recv_text is not None else []
         for (a, (pat, pty)) in zip(args, f.params):
             pty, prk = strip_ref(pty)
@@ -2612,15 +2978,30 @@ def emit_enum_helpers(w, out, name, sf):
         out.defs.append("(* derive(PartialEq) on a field-less enum: same variant *)\n"
                         "Definition %s_eqb_src (a b : %s) : bool := Nat.eqb (%s_index_src a) (%s_index_src b).\n"
                         % (name, cty, name, name))
+    elif ('PartialEq' in ders and all(k in ('unit', 'tuple') for (_, k, _) in variants)
+          and not any(p in FLAT or w.coq_type_of(p) not in ('Z', 'bool', 'Q') for (_, _, pl) in variants for p in pl)):
+        arms = []
+        for (v, kind, payload) in variants:
+            cname = ENUM_MAP[name][v][0]
+            if any(p in FLAT for p in payload):
+                raise Unsupported(sf.rel, 0, "derive(PartialEq) on `%s` with vector payloads" % name)
+            xs = ['x%d' % i for i in range(len(payload))]
+            ys = ['y%d' % i for i in range(len(payload))]
+            body = ' && '.join("%s %s %s" % (w.eqb_of(p, sf, 0), x, y) for (p, x, y) in zip(payload, xs, ys)) or 'true'
+            arms.append("| %s, %s => (%s)%%bool" % (' '.join([cname] + xs), ' '.join([cname] + ys), body))
+        out.defs.append("(* derive(PartialEq) on enum %s: same variant, equal payloads *)\n"
+                        "Definition %s_eqb_src (a b : %s) : bool :=\n  match a, b with\n  %s\n  | _, _ => false\n  end.\n"
+                        % (name, name, cty, '\n  '.join(arms)))
     w.enum_out[name] = out
 
 
 def emit_flags(w, out, name, sf):
     consts = w.flags[name]
+    sc = 'Z' if name in Z_FLAG_TYPES else 'N'
     for (c, v, line) in consts:
-        out.defs.append("(* bitflags %s::%s, %s:%d *)\nDefinition %s_%s_src : N := %d%%N.\n"
-                        % (name, c, sf.rel, line, name, c, v))
-    out.defs.append("Definition %s_flags_src : list N := [%s].\n"
+        out.defs.append("(* bitflags %s::%s, %s:%d *)\nDefinition %s_%s_src : %s := %d%%%s.\n"
+                        % (name, c, sf.rel, line, name, c, sc, v, sc))
+    out.defs.append("Definition %s_flags_src : list %s := [%%s].\n" % ('%s', sc)
                     % (name, '; '.join("%s_%s_src" % (name, c) for (c, _, _) in consts)))
     out.defs.append("Definition %s_flag_names_src : list string := %s.\n"
                     % (name, coq_string_list(c for (c, _, _) in consts)))
@@ -2637,8 +3018,13 @@ def emit_setters(w, out, name, sf):
         for (f, ty) in fields:
             if ty in w.smeta and w.smeta[ty]['out'] is not out and w.smeta[ty]['out'].name not in out.imports:
                 out.imports.append(w.smeta[ty]['out'].name)
+    tag = m.get('tag', name)
     out.defs.append("Definition %s_fields_src : list string := %s.\n"
-                    % (name, coq_string_list(f for (f, _) in fields)))
+                    % (tag, coq_string_list(f for (f, _) in fields)))
+    if m['generated'] and 'PartialEq' in m.get('derives', []) and fields:
+        conj = ' && '.join("%s (%s a) (%s b)" % (w.eqb_of(ty, sf, m['line']), proj[f], proj[f]) for (f, ty) in fields)
+        out.defs.append("(* derive(PartialEq) on struct %s: all fields equal *)\n"
+                        "Definition %s_eqb_src (a b : %s) : bool := (%s)%%bool.\n" % (name, tag, cty, conj))
     for (f, ty) in fields:
         parts = []
         for (g, _) in fields:
@@ -2695,10 +3081,14 @@ VALUE_FNS = ['zero', 'dim', 'convert', 'is_actuated', 'as_bool', 'as_axis1d', 'a
 EVENTS_FNS = ['new']
 TRACKER_FNS = ['new', 'state', 'value', 'events_blocked', 'overwrite', 'combine']
 DATA_FNS = ['update', 'state']
+READER_FNS = [('ConsumedInput', 'reset'), ('InputReader', 'mod_keys_pressed'), ('InputReader', 'value'),
+              ('InputReader', 'consume')]
 MODIF_FILES = [('scale.rs', 'Scale', 'struct', [], ['apply']),
                ('delta_scale.rs', 'DeltaScale', 'struct', [], ['apply']),
                ('accumulate_by.rs', 'AccumulateBy', 'struct', [], ['apply']),
-               ('dead_zone.rs', 'DeadZone', 'struct', ['DeadZoneKind'], ['dead_zone', 'apply'])]
+               ('dead_zone.rs', 'DeadZone', 'struct', ['DeadZoneKind'], ['dead_zone', 'apply']),
+               ('negate.rs', 'Negate', 'struct', [], ['apply']),
+               ('swizzle_axis.rs', 'SwizzleAxis', 'enum', ['SwizzleAxis'], ['apply'])]
 COND_FILES = [('condition_timer.rs', 'ConditionTimer', ['update', 'reset', 'duration']),
               ('press.rs', 'Press', ['evaluate']), ('just_press.rs', 'JustPress', ['evaluate']),
               ('release.rs', 'Release', ['evaluate']), ('hold.rs', 'Hold', ['evaluate']),
@@ -2743,6 +3133,7 @@ def run(repo, outdir):
     emit_loop_step(w, tt, o_tr, 'TriggerTracker', 'apply_conditions', 'apply_cond_src')
     files = {'GlamTbl.v': GLAM_V, 'ValueSrc.v': o_val, 'EventsSrc.v': o_ev, 'TrackerSrc.v': o_tr}
     # ---- second wave
+    w.late = True
     # 1. ActionData::update
     o_data = OutFile('Generated.DataSrc', ci.rel, ['Model.Num', 'Model.Value', 'Model.State'])
     w.load_struct(ci, 'ActionData', o_data)
@@ -2787,6 +3178,29 @@ def run(repo, outdir):
             w.require_fn((sname, n), o_mod, sf, 0)
     files['GlamTbl2.v'] = GLAM2_V
     files['ModifSrc.v'] = o_mod
+    # ---- third wave: input reader
+    inp = SrcFile(repo, 'src/input.rs')
+    rd = SrcFile(repo, 'src/input/input_reader.rs')
+    o_rd = OutFile('Generated.ReaderSrc', rd.rel + ' and ' + inp.rel,
+                   ['Model.Num', 'Model.Value', 'Model.State', 'Model.Tracker', 'Model.Cond', 'Model.Modif',
+                    'Model.Reader', 'Generated.GlamTbl', 'Generated.BevyTbl'])
+    w.load_enum(inp, 'GamepadDevice')
+    w.load_enum(inp, 'Input')
+    emit_enum_helpers(w, o_rd, 'GamepadDevice', inp)
+    emit_enum_helpers(w, o_rd, 'Input', inp)
+    w.load_bitflags(inp, 'ModKeys')
+    emit_flags(w, o_rd, 'ModKeys', inp)
+    w.generic_structs = {'GamepadInput': (rd.item('struct', 'GamepadInput'), rd, o_rd)}
+    for sname in ('ConsumedInput', 'InputReader'):
+        w.gen_struct(rd, sname, o_rd)
+        emit_setters(w, o_rd, sname, rd)
+        w.load_impls(rd, o_rd, sname)
+    for key in READER_FNS:
+        if key not in w.fns:
+            raise Unsupported(rd.rel, 0, "function `%s::%s` not found" % key)
+        w.require_fn(key, o_rd, rd, 0)
+    files['BevyTbl.v'] = BEVY_V
+    files['ReaderSrc.v'] = o_rd
     # all translated: write
     if not os.path.isdir(outdir):
         os.makedirs(outdir)
